@@ -53,6 +53,9 @@ func SafeExecute(p Property, sc *Scenario) (res *Result) {
 type WorkerViolation struct {
 	Index int        `json:"index"`
 	V     *Violation `json:"v"`
+	// the partition of the worker process that saw it (its earlier scenarios are From, From+Stride, ...)
+	From   int `json:"from"`
+	Stride int `json:"stride"`
 }
 
 // WorkerSummary is what a worker process prints.
@@ -66,6 +69,7 @@ type WorkerSummary struct {
 	ClassCount  map[string]int    `json:"class_count"`
 	Harness     []string          `json:"harness"`
 	Digests     map[int]uint64    `json:"digests,omitempty"`
+	from, stride int
 }
 
 func newSummary() *WorkerSummary {
@@ -98,7 +102,7 @@ func (s *WorkerSummary) add(index int, r *Result, keepDigest bool) {
 			}
 		}
 		if !found {
-			s.Violations = append(s.Violations, WorkerViolation{index, r.Violation})
+			s.Violations = append(s.Violations, WorkerViolation{Index: index, V: r.Violation, From: s.from, Stride: s.stride})
 		}
 	}
 	if keepDigest {
@@ -150,6 +154,7 @@ func (s *WorkerSummary) merge(o *WorkerSummary) {
 // RunWorker executes indices from, from+stride, ... < to and prints the summary as JSON.
 func RunWorker(p Property, seed uint64, tier string, from, to, stride int, digests bool) {
 	s := newSummary()
+	s.from, s.stride = from, stride
 	for i := from; i < to; i += stride {
 		sc := ScenarioFor(p, seed, i, tier)
 		r := SafeExecute(p, sc)
@@ -324,6 +329,36 @@ func RunBatch(cfg BatchConfig) int {
 			out, _ = cmd.CombinedOutput()
 			reproduced = cmd.ProcessState != nil && cmd.ProcessState.ExitCode() == 1 && strings.Contains(string(out), "REPRODUCED")
 		}
+		if !reproduced && !tolerateFlaky && firstUnknown.Stride > 0 && firstUnknown.Index > firstUnknown.From {
+			// The scenario alone does not fail in a fresh process, but it did in a worker process that had
+			// run other scenarios before: the behaviour depends on the history of the process (state
+			// shared between emulator instances). Replay it after the worker's earlier scenarios, and
+			// shorten that prelude as far as it still reproduces.
+			avail := (firstUnknown.Index - firstUnknown.From) / firstUnknown.Stride
+			try := func(k int) bool {
+				sc := full.Clone()
+				sc.Prelude = &Prelude{Seed: cfg.Seed, Tier: cfg.Tier, From: firstUnknown.Index - k*firstUnknown.Stride, Stride: firstUnknown.Stride, Count: k}
+				os.WriteFile(replayPath, sc.JSON(), 0o644)
+				cmd := exec.Command(cfg.SelfExe, "-replay", replayPath, "-prop", id)
+				cmd.Env = append(os.Environ(), "GOMAXPROCS=1")
+				out, _ = cmd.CombinedOutput()
+				return cmd.ProcessState != nil && cmd.ProcessState.ExitCode() == 1 && strings.Contains(string(out), "REPRODUCED")
+			}
+			if try(avail) {
+				best := avail
+				for k := 1; k < avail; k *= 2 {
+					if try(k) {
+						best = k
+						break
+					}
+				}
+				try(best) // leaves the file of the shortest reproducing prelude
+				reproduced = true
+				min = full.Clone()
+				min.Expect = firstUnknown.V
+				min.Expect.Detail = fmt.Sprintf("[only when %d other scenario(s) ran earlier in the same process; alone in a fresh process the scenario holds: instances are not independent] ", best) + min.Expect.Detail
+			}
+		}
 		if !reproduced {
 			if !tolerateFlaky {
 				fmt.Printf("HARNESS-FAULT property=%s: violation %s (index %d) does not replay from %s:\n%s\n", id, firstUnknown.V.Class, firstUnknown.Index, replayPath, tail(string(out), 1500))
@@ -482,6 +517,12 @@ func Replay(p Property, path string) int {
 		return 2
 	}
 	fmt.Printf("replay property=%s seed=%d index=%d tier=%s events=%d cycles=%d\n", sc.Property, sc.Seed, sc.Index, sc.Tier, len(sc.Events), sc.Cycles)
+	if pl := sc.Prelude; pl != nil {
+		fmt.Printf("prelude: %d earlier scenario(s) of seed %d tier %s in this process (indices %d, step %d)\n", pl.Count, pl.Seed, pl.Tier, pl.From, pl.Stride)
+		for k := 0; k < pl.Count; k++ {
+			SafeExecute(p, ScenarioFor(p, pl.Seed, pl.From+k*pl.Stride, pl.Tier))
+		}
+	}
 	r := SafeExecute(p, sc)
 	if r.Harness != "" {
 		fmt.Printf("HARNESS-FAULT %s\n", r.Harness)
